@@ -38,7 +38,7 @@ BIN = {'+': operator.add, '-': operator.sub, '*': operator.mul, '/': operator.tr
 
 
 def bounds(tier):
-    return {'program_depth': 2 if tier == 'quick' else 3, 'initial_magnitudes': MAGS, 'numbers': NUMS,
+    return {'program_depth': 2 if tier == 'quick' else '3 on all roots, 4 on one root per family', 'initial_magnitudes': MAGS, 'numbers': NUMS,
             'families': {k: v for k, v in FAMILIES.items()}}
 
 
@@ -290,9 +290,10 @@ def shards(tier):
     rs = roots(tier)
     out = [{'mode': 'prog', 'root': r, 'depth': 2} for r in rs]
     if tier != 'quick':
+        out = [{'mode': 'prog', 'root': r, 'depth': 3} for r in rs]
         for r in rs:
-            if r[1][0] in (TINY, 1.0) and r[2][0] in (TINY, 1e3):
-                out.append({'mode': 'prog', 'root': r, 'depth': 3})
+            if r[1][0] == TINY and r[2][0] == 1.0 and r[1][1] != r[2][1]:
+                out.append({'mode': 'prog', 'root': r, 'depth': 4})
     out.append({'mode': 'ctor'})
     return out
 
